@@ -125,6 +125,10 @@ class Mon:
             r_ = cpu.registers
             desc['hostile_mmu'] = {k: getattr(getattr(r_, k), 'value', getattr(r_, k)) for k in HOSTILE_REGS if hasattr(r_, k)}
             self.bump('steps_with_hostile_mmu_setup')
+        if ctx.cfg['have_security_ext'] and rng.random() < 0.3:
+            # Non-secure access controls at arbitrary values (coprocessor bits, RFR: FIQ mode reserved for Secure state)
+            cpu.registers.nsacr.value = rng.getrandbits(32)
+            desc['nsacr'] = '%#x' % cpu.registers.nsacr.value
         if ctx.cfg['arch_version'] == 6 and rng.random() < 0.5:
             # ARMv6 alignment models: legacy rotation (U=0), unaligned support (U=1), strict checking (A=1)
             cpu.registers.sctlr.u = rng.randrange(2)
@@ -464,6 +468,8 @@ def replay(data):
             reg.value = v
         else:
             setattr(cpu.registers, k_, v)
+    if rp.get('nsacr'):
+        cpu.registers.nsacr.value = int(rp['nsacr'], 16)
     if rp.get('sctlr_ua'):
         cpu.registers.sctlr.u, cpu.registers.sctlr.a = rp['sctlr_ua']
     out = dict(evaluations=1, violations=[])
